@@ -10,30 +10,11 @@ PROOF_NOTE = ("Trusted base: pyvc (symbolic proxies + loop cutting; T1/T2 differ
               "functions listed in the evidence file. Python ints are mathematical integers (exact). Termination only where a "
               "decreases clause is given.")
 
-# id -> dict(level, text, technique, design_ref, note)   (claimed checks)
-CLAIMED = {
-    "C20": dict(
-        category="proof",
-        text="All four functions of ppci/utils/leb128.py are under contract against the DWARF/WebAssembly LEB128 algorithms "
-             "(spec functions uenc/senc): encoders by loop invariant + variant for every integer, decoders by invariant with a ghost "
-             "remainder for every encoded value followed by arbitrary trailing bytes; round trip and minimality are lemmas over the "
-             "contracts. Unbounded in value and length. Callers (wasm, DWARF) are not covered.",
-        technique="contract-based deductive verification: VCs generated by executing the real functions on symbolic proxies with "
-                  "loop cutting at sidecar invariants, discharged by z3 (cvc5 second back end)",
-        design_ref="6/C20, Appendix A.1-A.3",
-        note=PROOF_NOTE),
-    "C39": dict(
-        category="proof",
-        text="Every bit helper the property names (rotate_left/right, rotl/rotr for any count, reverse_bits, to_signed/to_unsigned/"
-             "sign_extend for every integer, clz/ctz/popcnt for every integer incl. negative, encode_imm32 with reject-iff-not-representable "
-             "and smallest-rotation clauses) is under contract against its textbook definition. Values are unbounded symbolic integers; "
-             "the bit width is a finite grid (quick 1,5,8,16,24,32,64; thorough 1..64), loops are cut at invariants (clz, ctz, popcnt) "
-             "or have concrete trip counts per grid point. Widths above 64 are not covered.",
-        technique="contract-based deductive verification: VCs generated by executing the real functions on symbolic proxies with "
-                  "loop cutting at sidecar invariants, discharged by z3 (cvc5 second back end); parameter grid over bit widths",
-        design_ref="6/C39",
-        note=PROOF_NOTE),
-}
+# claimed checks live in tools/claims.json: id -> {category, text, technique, design_ref, note}
+CLAIMED = json.load(open(os.path.join(HERE, "tools", "claims.json")))
+for _v in CLAIMED.values():
+    if _v.get("note") == "PROOF_NOTE":
+        _v["note"] = PROOF_NOTE
 
 NOT_APPLICABLE = {
     "C01": "oracle is a conforming C compiler over whole programs; needs formal semantics of C and the IR; no function contract expresses it",
@@ -73,7 +54,7 @@ def main():
                 "thorough_cmd": "checks/run %s --tier thorough" % pid,
                 "evidence_file": "/verif/evidence/%s.json" % pid,
                 "replay_cmd_template": "checks/run --replay {path}",
-                "engine": "pyvc",
+                "engine": c.get("engine", "pyvc"),
                 "level_claimed": {"category": c["category"], "text": c["text"], "design_ref": c["design_ref"]},
                 "level_note": c["note"],
                 "technique": c["technique"],
